@@ -2,7 +2,7 @@ import Xrl.Lemmas.Meets
 import Xrl.Spec.Cascade2
 import Xrl.Gen.Static
 /-!
-# C08 (part 2): small lemmas shared by the vacancy / shell / line theorems
+# C08 (part 2): small lemmas shared by the vacancyProd / shell / line theorems
 
 * `ind c` : the indicator of a guard, so that `if c then a + x else a = a + ind c * x` and sums over the guarded
   terms of the generated code and of the specification are compared by `ring`, without case splits;
@@ -31,7 +31,7 @@ theorem ite_acc2 (c : Prop) [Decidable c] (a x y : ℝ) :
     (if c then a + x + y else a) = a + ind c * x + ind c * y := by
   unfold ind; split_ifs <;> simp
 
-/-- a read of the vacancy-transfer constants `[ZMAX+1][9][4]` with constant shell indices -/
+/-- a read of the vacancyProd-transfer constants `[ZMAX+1][9][4]` with constant shell indices -/
 theorem rd3_cell {β : Type} (name : String) (f : Nat → Nat → Nat → β) {i : Int} (hb : 0 ≤ i ∧ i < 121) (j k : Int)
     (hj : 0 ≤ j ∧ j < 9) (hk : 0 ≤ k ∧ k < 4) :
     rd3 name 121 9 4 f i j k = Except.ok (f i.toNat j.toNat k.toNat) := by
@@ -111,7 +111,7 @@ theorem lineRanges_from_names : lineRangesOfNames = lineRanges := by decide +ker
 theorem lineRanges_full : lineRangesFull = true := by decide +kernel
 
 /-- the L-beta members of the specification are the 13 macros of `LB_LINE_MACROS` (src/kissel_pe.c) -/
-theorem lbMembers_eq : lbMembers = Static.LB_LINE_MACROS_list := by decide
+theorem lbMembers_eq : lbMembersK = Static.LB_LINE_MACROS_list := by decide
 
 /-- the Coster–Kronig transitions leaving a sub-shell (`Hdr.ck_of_shell`, used by C11) are those of `ck_feed` -/
 theorem ck_feed_ck_of_shell :
@@ -155,9 +155,9 @@ theorem foldl_congr_mem_int {β : Type} {f g : β → Int → β} (ks : List Int
     rw [h k (List.mem_cons_self ..)]
     exact ih (fun k' hk' => h k' (List.mem_cons_of_mem _ hk')) _
 
-/-- the vacancy production of `t` depends on the inner-shell values below `t` only -/
+/-- the vacancyProd production of `t` depends on the inner-shell values below `t` only -/
 theorem vacancy_congr (T : Tables ℝ) (Z t : Int) (v : Variant) (P P' : Int → ℝ) (own : Expect ℝ)
-    (h : ∀ s, 0 ≤ s → s < t → P s = P' s) : vacancy T Z t v P own = vacancy T Z t v P' own := by
+    (h : ∀ s, 0 ≤ s → s < t → P s = P' s) : vacancyProd T Z t v P own = vacancyProd T Z t v P' own := by
   have h1 : ∀ o : ℝ, (lowerSame t).foldl (fun acc u =>
         if (0.0 : ℝ) < P u then (ckList t u).foldl (fun a tr => a + ckProb T Z tr * P u) acc else acc) o =
       (lowerSame t).foldl (fun acc u =>
@@ -177,7 +177,7 @@ theorem vacancy_congr (T : Tables ℝ) (Z t : Int) (v : Variant) (P P' : Int →
     have := mem_inner hu
     rw [h u this.1 this.2]
   cases own with
-  | value o => cases v <;> simp only [vacancy, h1, h2]
+  | value o => cases v <;> simp only [vacancyProd, h1, h2]
   | fails => rfl
   | any => rfl
 
@@ -186,16 +186,16 @@ theorem innerP_below (T : Tables ℝ) (Z : Int) (v : Variant) (own : Int → Exp
   have : s ≠ (k : Int) := by omega
   simp only [innerP, this, if_false]
 
-/-- the inner-shell values are a fixed point: each is the vacancy production computed from all of them -/
+/-- the inner-shell values are a fixed point: each is the vacancyProd production computed from all of them -/
 theorem innerP_fix (T : Tables ℝ) (Z : Int) (v : Variant) (own : Int → Expect ℝ) (k : Nat) (j : Int)
     (h0 : 0 ≤ j) (hj : j < k) :
-    innerP T Z v own k j = valOr0 (vacancy T Z j v (innerP T Z v own k) (own j)) := by
+    innerP T Z v own k j = valOr0 (vacancyProd T Z j v (innerP T Z v own k) (own j)) := by
   induction k with
   | zero => omega
   | succ k ih =>
     by_cases hjk : j = (k : Int)
     · subst hjk
-      have : innerP T Z v own (k + 1) (k : Int) = valOr0 (vacancy T Z k v (innerP T Z v own k) (own k)) := by
+      have : innerP T Z v own (k + 1) (k : Int) = valOr0 (vacancyProd T Z k v (innerP T Z v own k) (own k)) := by
         simp only [innerP, if_true]
       rw [this]
       congr 1
